@@ -215,7 +215,17 @@ func (p *clex) expr() *CExpr {
 			if n.k != "id" {
 				p.fail("expected variable name in quantifier")
 			}
-			ty := p.ctype()
+			var ty *CType
+			if pk := p.peek(); pk.k == "id" && pk.s == "range" {
+				p.next()
+				num := p.next()
+				if num.k != "int" {
+					p.fail("expected constant after range")
+				}
+				ty = &CType{Kind: "range", Name: num.s}
+			} else {
+				ty = p.ctype()
+			}
 			vars = append(vars, QVar{n.s, ty})
 			if !p.accept(",") {
 				break
